@@ -13,7 +13,7 @@ import numpy as np
 import static_frame as sf
 from mc import universe as U
 from mc.observe import columns_of, is_missing, norm, snap
-from mc.props.c04 import (absent_labels, auto_class, eqv, key_repr, label_keys, make_axis, make_frame, pos_keys, reduced_lab, reduced_pos, resolve)
+from mc.props.c04 import (absent_labels, auto_class, eqv, key_repr, label_keys, layout_specs, make_axis, make_frame, pos_keys, reduced_lab, reduced_pos, resolve)
 from mc.refsel import lk
 
 PROPERTY_ID = 'C08'
@@ -59,9 +59,7 @@ def cases(tier):
                 yield ('series', kind, n, route)
     for (nr, nc) in sc['shapes']:
         for rk, ck in FRAME_KINDS:
-            for li in range(4):
-                if li == 3 and nc < 3:
-                    continue
+            for li in layout_specs(nc, tier):
                 for fam in ('assign1', 'assign2', 'drop', 'mask', 'astype', 'labels', 'bloc'):
                     yield ('frame', fam, rk, ck, nr, nc, li)
 
@@ -394,7 +392,7 @@ def run_frame(case, ctx):
                         ctx.violation(f'{tag}|raises-{type(e).__name__}', **info, error=repr(e))
                         continue
                     exp = [[(v if vname == 'element' else arr2[i, j]) if m[i, j] else grid[j][i] for i in range(nr)] for j in range(nc)]
-                    check_result(tag, r, exp, info, addressed_cols={j for j in range(nc) if m[:, j].any()} if li in (0, 2) else None)
+                    check_result(tag, r, exp, info, addressed_cols={j for j in range(nc) if m[:, j].any()} if all(x in ('1', '2x1', 'all2x1', 'ifs', 'iis', 'iff', 'iii', 'sii') for x in sig) else None)
             unchanged(ctx, 'frame.bloc', f, before, info)
     elif fam == 'astype':
         targets = [('float', float, 'float64'), ('str', str, None), ('object', object, 'object')]
